@@ -1883,7 +1883,7 @@ class ListBox(Widget, WidgetContainerMixin):
         from urwid.util import is_mouse_press
 
         (maxcol, maxrow) = size
-        middle, top, bottom = self.calculate_visible((maxcol, maxrow), focus=True)
+        middle, top, bottom = self.calculate_visible((maxcol, maxrow), focus=focus)
         if middle is None:
             return False
 
